@@ -158,6 +158,10 @@ func c19Case(args []string) string {
 		return c19Ipc(args[1:])
 	case "jipc":
 		return c19Jipc(args[1:])
+	case "jipcf":
+		return c19Jipcf(args[1:])
+	case "sched":
+		return c19Sched(args[1:])
 	}
 	return "!badcase"
 }
